@@ -36,3 +36,25 @@ package actor
 // rr_slot is the abstraction function of the round-robin cursor: the index of
 // the routee the next routed message goes to.
 //@ spec func rr_slot(next uint32, n int) int = int(next) % n
+
+//@ ghost var tells int
+
+//@ func (*router).routeByStrategy(x, ctx, msg, routees)
+//@   arith int
+//@   requires len(routees) > 0 && len(routees) <= 1<<32
+//@   at call 1 of (*ReceiveContext).Tell assert rr-target: arg1 == routees[rr_slot(old(x.roundRobinNext), len(routees))]
+//@   at call 1 of (*ReceiveContext).Tell ghost tells = tells + 1
+//@   loop 1 invariant bounds: -1 <= rangeindex && (rangeindex == -1 || rangeindex < len(routees))
+//@   ensures rr-slot-in-range: old(x.routingStrategy) == RoundRobinRouting ==> 0 <= rr_slot(x.roundRobinNext, len(routees)) && rr_slot(x.roundRobinNext, len(routees)) < len(routees)
+//@   ensures rr-cyclic-order: old(x.routingStrategy) == RoundRobinRouting ==> rr_slot(x.roundRobinNext, len(routees)) == (rr_slot(old(x.roundRobinNext), len(routees)) + 1) % len(routees)
+//@   ensures rr-sends-exactly-one: old(x.routingStrategy) == RoundRobinRouting ==> tells == old(tells) + 1
+
+// Frame assumption (trusted): ctx.Tell only enqueues into the target's mailbox
+// and schedules it; it does not run any actor's handler synchronously, so it
+// cannot re-enter the router. It is backed by the structural obligation below:
+// the round-robin cursor has exactly one writer.
+//@ func (*ReceiveContext).Tell(ctx, to, message)
+//@   trusted "asynchronous send: writes no router field (the cursor's only writer is routeByStrategy, structural obligation)"
+//@   modifies ReceiveContext.err
+
+//@ structural writers router.roundRobinNext: (*router).routeByStrategy
